@@ -28,6 +28,7 @@ CMP = [('lt', operator.lt), ('le', operator.le), ('gt', operator.gt), ('ge', ope
 
 def setup(mode):
     C.import_catalogue()
+    import quantity.money  # noqa: F401
 
 
 def jobs(tier, seed):
@@ -51,6 +52,7 @@ def jobs(tier, seed):
                 continue
             for _ in range(reps):
                 cross.append([rng.choice(c1.units()).symbol, rng.choice(c2.units()).symbol])
+    cross += [['K', 'EUR'], ['EUR', '°C'], ['EUR', 'kg'], ['m', 'EUR']]       # two types without reference unit; money
     out = []
     fl = ['dec', 'frac']
     for i, ch in enumerate(C.chunks(pairs, 32)):
@@ -147,6 +149,9 @@ def _expect_raises(E, fn, exc_cls, label, info):
 def mixed_types(E, cfg):
     from quantity import Quantity, IncompatibleUnitsError
     us, vs = E.choice('pair', cfg['pairs'])
+    if 'EUR' in (us, vs):
+        from quantity.money import Money
+        Money.register_currency('EUR')
     u, v = C.unit(us), C.unit(vs)
     a = E.rational('a', 'dec')
     b = E.rational('b', 'frac')
